@@ -20,14 +20,14 @@ CONSTANTS
   UNBONDS = {5}
   CALLERS = {"w1"}
   NAMES = {"n1"}
-  A_OPS = {"o1", "o3", "u1"}
+  A_OPS = {"o1", "o3"}
   BLSCLS = {"good"}
   P_RESP = {0, 1}
   P_STAT = {0, 1}
   P_CHAL = {0, 1}
   STAGES = {"1", "2"}
-  SIGS = {"g1", "g2", "x1", "empty"}
-  RESPS = {"nil", "r1", "rw"}
+  SIGS = {"g1", "g3", "x1"}
+  RESPS = {"nil", "r1", "r2", "rw"}
   IDS = {1}
   HASHC = {"good", "bad"}
   FOREIGN = FALSE
